@@ -36,6 +36,7 @@ import (
 	"github.com/koordinator-sh/koordinator/pkg/descheduler/controllers/migration/arbitrator"
 	"github.com/koordinator-sh/koordinator/pkg/descheduler/controllers/migration/reservation"
 	evictionsutil "github.com/koordinator-sh/koordinator/pkg/descheduler/evictions"
+	"github.com/koordinator-sh/koordinator/pkg/descheduler/framework"
 )
 
 // C17 harness.  One case = one history of ONE PodMigrationJob driven through the real
@@ -2231,4 +2232,347 @@ func TestVerifC17LagExhaustive(t *testing.T) {
 	h.Close("EXHAUSTIVE small scope: every history of at most 5 events over {reconcile served the newest / 1 / 2 / 3 versions back, reconcile whose 3rd write fails, " +
 		"reservation scheduled on another node, reservation consumed by a sibling pod (scheduler played faithfully), pod deleted, controller restart} " +
 		"from a fresh reservation-first job, a fresh job whose own template says allocateOnce=false, and a job half way with a pending reservation; non-trivial = a reconcile issued a write")
+}
+
+// ---------- ext5: the scavenger, jobs created through Reconciler.Evict, restart = a NEW Reconciler instance ----------
+
+// c17ScavSlack: how long after its TTL the oracle gives the controller to have returned an expired job's reservation
+// (the scavenger's own grace is 5 minutes and its period 1 minute; the oracle only knows "half an hour is plenty").
+const c17ScavSlack = 1800
+
+func (w *c17World) tryJob() *sev1alpha1.PodMigrationJob {
+	job := &sev1alpha1.PodMigrationJob{}
+	err := w.base.Get(context.TODO(), types.NamespacedName{Name: c17JobName}, job)
+	if apierrors.IsNotFound(err) {
+		return nil
+	}
+	w.must(err, "get job")
+	return job
+}
+
+func (w *c17World) tick(d int) {
+	w.now += d
+	w.clk.Step(time.Duration(d) * time.Second)
+	w.h.Op("tick %d", d)
+	w.h.Tag("env:tick")
+}
+
+// c17InitViaEvict: the job is created by the REAL Reconciler.Evict (→ CreatePodMigrationJob) of the first controller
+// instance: it stamps the created-by annotation with that instance's uid, takes mode and TTL from the args and the pod's
+// uid for Spec.PodRef.  The Create interceptor plays the API server (uid, creation timestamp = now).
+func c17InitViaEvict(h *vHarness, r *vRand, tmpl *Reconciler, base client.WithWatch, fixed bool) *c17World {
+	w := &c17World{h: h, tmpl: tmpl, base: base}
+	for _, o := range []client.Object{
+		&sev1alpha1.PodMigrationJob{ObjectMeta: metav1.ObjectMeta{Name: c17JobName}},
+		&sev1alpha1.Reservation{ObjectMeta: metav1.ObjectMeta{Name: c17ResvName}},
+		&corev1.Pod{ObjectMeta: metav1.ObjectMeta{Namespace: c17NS, Name: c17PodName}},
+		&corev1.Pod{ObjectMeta: metav1.ObjectMeta{Namespace: c17NS, Name: c17BPodName}},
+	} {
+		if err := base.Delete(context.TODO(), o); err != nil && !apierrors.IsNotFound(err) {
+			panic(err)
+		}
+	}
+	w.cl = interceptor.NewClient(w.base, w.funcs())
+	w.clk = fakeclock.NewFakeClock(c17T0)
+	w.dfltMode = []int{0, 1, 1, 1, 1, 2}[r.Intn(6)]
+	w.direct = w.dfltMode == 2
+	if !r.Chance(1, 6) {
+		w.ttl = r.Range(60, 600)
+	}
+	w.ctrlUID = r.Range(1, 2)
+	if fixed {
+		// exhaustive stream: instance 1, reservation-first by explicit default, TTL 300 s
+		w.dfltMode, w.direct, w.ttl, w.ctrlUID = 1, false, 300, 1
+	}
+	w.newReconciler()
+	w.r.args.DefaultJobTTL = metav1.Duration{Duration: time.Duration(w.ttl) * time.Second} // 0 = a job without TTL
+	p := &c17Pod{uid: 1, node: r.Range(1, 3)}
+	if r.Chance(1, 8) {
+		p.pending, p.node, p.sched, p.msg = true, 0, 1, r.Range(0, 3)
+	}
+	if fixed {
+		p = &c17Pod{uid: 1, node: 1}
+	}
+	w.quiet = true
+	w.setPod(p)
+	w.quiet = false
+	h.Op("evictjob %d %d %d %d %d %d %d %d", w.ctrlUID, w.dfltMode, w.ttl, p.uid, p.node, p.sched, p.msg, vB(p.pending))
+	pod := w.getPod(c17PodName)
+	saved := UUIDGenerateFn
+	UUIDGenerateFn = func() types.UID { return c17JobName }
+	w.stampJob = true
+	ok := false
+	panicked := h.Guard(func() {
+		ok = w.r.Evict(context.TODO(), pod, framework.EvictOptions{PluginName: "verif", Reason: "c17"})
+	})
+	UUIDGenerateFn = saved
+	w.stampJob = false
+	if panicked || !ok {
+		panic("c17 harness: Reconciler.Evict did not create the job")
+	}
+	job := w.getJob()
+	ttl := 0
+	if job.Spec.TTL != nil {
+		ttl = int(job.Spec.TTL.Duration / time.Second)
+	}
+	direct := job.Spec.Mode == sev1alpha1.PodMigrationJobModeEvictionDirectly || (job.Spec.Mode == "" && w.dfltMode == 2)
+	h.Obs("created 1 %d %d %d %d %d %d", c17Code(job.Annotations[AnnotationJobCreatedBy], "c"), vB(direct), ttl,
+		c17Code(string(job.Spec.PodRef.UID), "u"), c17PhaseCode(job.Status.Phase),
+		vB(job.Spec.ReservationOptions != nil && job.Spec.ReservationOptions.ReservationRef != nil))
+	if by := job.Annotations[AnnotationJobCreatedBy]; by != string(w.r.reconcilerUID) {
+		h.Fail("C17:created-by-not-stamped", "Reconciler.Evict created a job whose %s annotation is %q, the creating instance is %q", AnnotationJobCreatedBy, by, w.r.reconcilerUID)
+	}
+	h.Tag(fmt.Sprintf("init:via-evict/mode=%q/ttl>0=%v", job.Spec.Mode, w.ttl > 0))
+	h.Tag(fmt.Sprintf("init:direct=%v", w.direct))
+	w.arbCopy = job
+	return w
+}
+
+// scavenge: one round of the REAL doScavenge of the running instance, with a write-fault mask over its calls
+// (reservation Delete = kind 5, job Delete = kind 12).
+func (w *c17World) scavenge(faults uint64) {
+	h := w.h
+	before := w.tryJob()
+	w.faults, w.nw, w.acts = faults, 0, w.acts[:0]
+	h.Op("scav %d", faults)
+	if h.Guard(func() { w.r.doScavenge() }) {
+		h.Obs("panic")
+		return
+	}
+	job := w.tryJob()
+	w.jobGone = job == nil
+	rv := w.getResv()
+	h.Obs("scav %d %d", vB(job != nil), vB(rv != nil))
+	flat := []int64{}
+	faultHit := false
+	for i := 0; i+2 < len(w.acts); i += 3 {
+		flat = append(flat, w.acts[i], w.acts[i+1])
+		if w.acts[i+1] == 0 {
+			faultHit = true
+		}
+	}
+	h.Obs("%s", strings.TrimSpace("sacts "+vInts(flat)))
+	if len(flat) > 0 {
+		h.Nontrivial()
+	}
+	if before == nil {
+		h.Tag("scav:job-already-gone")
+		return
+	}
+	foreign := false
+	if by, ok := before.Annotations[AnnotationJobCreatedBy]; ok && by != string(w.r.reconcilerUID) {
+		foreign = true
+	}
+	live := before.Status.Phase == "" || before.Status.Phase == sev1alpha1.PodMigrationJobPending || before.Status.Phase == sev1alpha1.PodMigrationJobRunning
+	h.Tag(fmt.Sprintf("scav:foreign=%v/phase=%s/job-deleted=%v/writes=%d/fault-hit=%v", foreign, before.Status.Phase, job == nil, len(flat)/2, faultHit))
+	if faultHit {
+		w.anyFault = true
+	}
+	// ----- oracle, under ANY faults: an expired job that the scavenger removes has returned its reservation first (once the job
+	// object is gone nothing will ever delete the reservation it referenced) -----
+	if name := refName0(before); job == nil && w.ttl > 0 && w.now >= w.ttl && name != "" && rv != nil && rv.Name == name {
+		h.Fail("C17:expired-keeps-reservation:job-deleted-first", "the scavenger deleted the expired job (phase %q, %d s past its TTL of %d s) while the reservation %s it references still exists (failed call in this round: %v)",
+			before.Status.Phase, w.now-w.ttl, w.ttl, name, faultHit)
+	}
+	// ----- oracle: "an expired job deletes its reservation" — whoever created the job, whichever instance runs now -----
+	if w.ttl > 0 && w.now >= w.ttl+c17ScavSlack && live && !faultHit {
+		h.Tag(fmt.Sprintf("ttl:expired-scavenged/foreign=%v", foreign))
+		name := refName0(before)
+		if name != "" && rv != nil && rv.Name == name {
+			h.Fail("C17:expired-keeps-reservation", "job (phase %q, created-by %q, running instance %q) is %d s past its TTL of %d s and a full scavenger round ran without a failed call, but its reservation %s still exists (job deleted: %v)",
+				before.Status.Phase, before.Annotations[AnnotationJobCreatedBy], w.r.reconcilerUID, w.now-w.ttl, w.ttl, name, job == nil)
+		}
+		if name == "" && rv != nil && rv.Name == string(before.UID) && rv.Labels[reservation.LabelCreatedBy] == reservation.DefaultCreator {
+			h.Fail("C17:expired-keeps-reservation:ref-write-failed", "job %d s past its TTL of %d s was scavenged (deleted: %v) without a ReservationRef, the reservation %s it created still exists", w.now-w.ttl, w.ttl, job == nil, rv.Name)
+		}
+	}
+}
+
+// reconcileGone: a reconcile request for the job after the scavenger deleted it (Get answers NotFound).
+func (w *c17World) reconcileGone() {
+	h := w.h
+	w.faults, w.nw, w.acts = 0, 0, w.acts[:0]
+	h.Op("recg")
+	if h.Guard(func() {
+		_, _ = w.r.Reconcile(context.TODO(), reconcile.Request{NamespacedName: types.NamespacedName{Name: c17JobName}})
+	}) {
+		h.Obs("panic")
+		return
+	}
+	h.Obs("recg %d", len(w.acts)/3)
+}
+
+// TestVerifC17Scav: histories with the scavenger and controller restarts.  3/4 of the jobs are created through the real
+// Reconciler.Evict of instance #1 (stamped created-by annotation), 1/4 come from the general generator (user jobs, jobs
+// stamped by uid 1 / 2, any initial status).  Phase A: the creating instance reconciles (reservation created, scheduled, ...);
+// then in 3/4 of the cases a RESTART = a new Reconciler instance with a fresh uid over the same API server; phase B: time
+// passes (up to and far beyond TTL + the scavenger's grace), the running instance reconciles and scavenges (with faults);
+// the history ends far past the TTL with a fault-free scavenger round.
+func TestVerifC17Scav(t *testing.T) {
+	h := vOpen("C17")
+	if h == nil {
+		t.Skip("VERIF_OUT not set")
+	}
+	tmpl, base := c17Setup()
+	n := h.N(1500, 20000)
+	for idx := 0; idx < n; idx++ {
+		r := h.Begin(idx)
+		if r == nil {
+			continue
+		}
+		var w *c17World
+		if idx%4 != 3 {
+			w = c17InitViaEvict(h, r, tmpl, base, false)
+			h.Tag("stream:job-created-through-Evict")
+		} else {
+			w = c17InitCase(h, r, tmpl, base, nil)
+			h.Tag("stream:general-job")
+		}
+		faultFree := r.Bool()
+		scavFaults := func() uint64 {
+			if faultFree || r.Bool() {
+				return 0
+			}
+			return uint64(r.Range(1, 3))
+		}
+		// phase A: the creating instance works on the job
+		for s, steps := 0, r.Range(0, 5); s < steps && !w.jobGone; s++ {
+			switch c := r.Intn(10); {
+			case c < 6:
+				w.reconcile(c17GenFaults(r, faultFree))
+			case c < 7:
+				w.scavenge(scavFaults())
+			default:
+				w.envEvent(r, true)
+			}
+		}
+		// restart: a NEW instance with a fresh uid
+		restarted := false
+		if r.Chance(3, 4) {
+			restarted = true
+			old := w.ctrlUID
+			w.ctrlUID = r.Range(1, 3)
+			if w.ctrlUID == old && r.Chance(3, 4) {
+				w.ctrlUID = old%3 + 1
+			}
+			w.newReconciler()
+			h.Op("restart %d", w.ctrlUID)
+			h.Tag(fmt.Sprintf("env:restart/new-uid=%v", w.ctrlUID != old))
+		}
+		// phase B: time passes; the running instance reconciles and scavenges
+		for s, steps := 0, r.Range(2, 8); s < steps; s++ {
+			c := r.Intn(12)
+			switch {
+			case c < 3:
+				d := []int{w.ttl, 300, 1800, r.Range(1, 2000), r.Range(1, 100)}[r.Intn(5)]
+				if d == 0 {
+					d = 1800
+				}
+				w.tick(d)
+			case c < 6 && w.jobGone:
+				w.reconcileGone()
+			case c < 6:
+				w.reconcile(c17GenFaults(r, faultFree))
+			case c < 9 || w.jobGone:
+				w.scavenge(scavFaults())
+			default:
+				w.envEvent(r, false)
+			}
+		}
+		// the end: far past the TTL, a fault-free scavenger round
+		end := w.ttl + c17ScavSlack + r.Range(0, 600)
+		if w.now < end {
+			w.tick(end - w.now)
+		}
+		w.scavenge(0)
+		if w.jobGone {
+			w.reconcileGone()
+		} else {
+			w.reconcile(0)
+			w.scavenge(0)
+		}
+		h.Tag(fmt.Sprintf("history:restarted=%v/job-gone-at-end=%v/reservation-at-end=%v", restarted, w.jobGone, w.getResv() != nil))
+		h.End()
+	}
+	h.Close("scavenger histories: 3/4 of the jobs created through the real Reconciler.Evict (created-by annotation stamped with the creating instance's uid, mode / TTL from the args), 1/4 general jobs; " +
+		"phase A 0-5 steps of the creating instance (reconciles with write faults, helpful environment events, early scavenger rounds), then in 3/4 a restart = NEW Reconciler instance (fresh uid in most) over the same fake API server, " +
+		"phase B 2-8 steps (ticks up to / beyond TTL + grace, reconciles, scavenger rounds with a fault mask over reservation Delete / job Delete, environment events), " +
+		"the end: clock >= TTL + 30 min, a fault-free scavenger round, a reconcile; oracle: an expired live job's referenced reservation is gone after that round whoever created the job; non-trivial = a scavenger round issued a write; distinct by op lines")
+}
+
+// TestVerifC17ScavExhaustive: ALL histories of at most 5 events over an 8-letter alphabet from the job that instance 1
+// creates through Reconciler.Evict (reservation-first, TTL 300 s, pod on node 1).
+func TestVerifC17ScavExhaustive(t *testing.T) {
+	h := vOpen("C17")
+	if h == nil {
+		t.Skip("VERIF_OUT not set")
+	}
+	tmpl, base := c17Setup()
+	const A = 8
+	n := 0
+	for l, p := 0, 1; l <= 5; l, p = l+1, p*A {
+		n += p
+	}
+	if vEnvInt("VERIF_C17_EXH_MAX", 0) > 0 && n > vEnvInt("VERIF_C17_EXH_MAX", 0) {
+		n = vEnvInt("VERIF_C17_EXH_MAX", 0)
+	}
+	for idx := 0; idx < n; idx++ {
+		r := h.Begin(idx)
+		if r == nil {
+			continue
+		}
+		code := idx
+		length, p := 0, 1
+		for code >= p {
+			code -= p
+			p *= A
+			length++
+		}
+		letters := make([]int, length)
+		for i := range letters {
+			letters[i] = code % A
+			code /= A
+		}
+		w := c17InitViaEvict(h, r, tmpl, base, true)
+		rec := func(f uint64) {
+			if w.jobGone {
+				w.reconcileGone()
+			} else {
+				w.reconcile(f)
+			}
+		}
+		for _, a := range letters {
+			switch a {
+			case 0:
+				rec(0)
+			case 1:
+				rec(8) // in the creating reconcile: the write of the ReservationRef fails
+			case 2:
+				w.ctrlUID = w.ctrlUID%3 + 1
+				w.newReconciler()
+				h.Op("restart %d", w.ctrlUID)
+			case 3:
+				w.tick(300)
+			case 4:
+				w.tick(1800)
+			case 5:
+				w.scavenge(0)
+			case 6:
+				w.scavenge(1)
+			default:
+				rv := w.curResv()
+				if rv == nil {
+					rv = &c17Resv{orderLabel: true}
+				}
+				rv.phase, rv.sched, rv.msg, rv.node = 2, 1, 0, 2
+				w.setResv(rv)
+			}
+		}
+		h.Tag(fmt.Sprintf("exhaustive:len=%d", length))
+		h.Tag(fmt.Sprintf("history:job-gone-at-end=%v/reservation-at-end=%v", w.jobGone, w.getResv() != nil))
+		h.End()
+	}
+	h.Extra("exhaustive", fmt.Sprintf("all %d histories of <= 5 events over %d letters", n, A))
+	h.Close("EXHAUSTIVE small scope: every history of at most 5 events over {reconcile clean / with the ReservationRef write failing, restart with a fresh uid, clock +300 s / +1800 s, " +
+		"scavenger round clean / first write fails, reservation scheduled on another node} from the job instance 1 creates through Reconciler.Evict; non-trivial = an API write was issued")
 }
